@@ -93,6 +93,34 @@ def checkC18 (a b : List Char) (o : PairObs) : Option String :=
   else if o.strA != a then some "str-original-spelling"
   else if o.strB != b then some "str-original-spelling(b)"
   else none
+/-- C18 read literally for *supplied* lower-cased texts `la = str.lower(a)`, `lb = str.lower(b)`: whatever the
+folding is (Python's Unicode-aware `str.lower` for non-ASCII text, where the harness supplies the two folded texts), the
+observations must be those of the folded texts.  `C18_Holds a b o` is the instance `la = lower a`, `lb = lower b`. -/
+def C18_HoldsFolded (la lb a b : List Char) (o : PairObs) : Prop :=
+  (o.eqAB = true ↔ la = lb) ∧ (o.eqBA = true ↔ lb = la) ∧ (o.neAB = !o.eqAB) ∧
+  (o.eqAB = true → o.hashEq = true) ∧
+  (o.ltAB = true ↔ la < lb) ∧ (o.ltBA = true ↔ lb < la) ∧
+  (o.leAB = true ↔ la ≤ lb) ∧ (o.leBA = true ↔ lb ≤ la) ∧
+  (o.gtAB = true ↔ lb < la) ∧ (o.geAB = true ↔ lb ≤ la) ∧
+  (o.bInA = true ↔ Occurs lb la) ∧ (o.aInB = true ↔ Occurs la lb) ∧
+  o.strA = a ∧ o.strB = b
+
+def checkC18Folded (la lb a b : List Char) (o : PairObs) : Option String :=
+  if o.eqAB != (la == lb) then some "eq-iff-lower-equal"
+  else if o.eqBA != (lb == la) then some "eq-symmetric"
+  else if o.neAB != !o.eqAB then some "ne-is-not-eq"
+  else if o.eqAB && !o.hashEq then some "equal-hash-equally"
+  else if o.ltAB != decide (la < lb) then some "lt-as-lower-texts"
+  else if o.ltBA != decide (lb < la) then some "lt-as-lower-texts(swapped)"
+  else if o.leAB != decide (la ≤ lb) then some "le-as-lower-texts"
+  else if o.leBA != decide (lb ≤ la) then some "le-as-lower-texts(swapped)"
+  else if o.gtAB != decide (lb < la) then some "gt-as-lower-texts"
+  else if o.geAB != decide (lb ≤ la) then some "ge-as-lower-texts"
+  else if o.bInA != occursB lb la then some "contains-ignoring-case"
+  else if o.aInB != occursB la lb then some "contains-ignoring-case(swapped)"
+  else if o.strA != a then some "str-original-spelling"
+  else if o.strB != b then some "str-original-spelling(b)"
+  else none
 -- TODO(proof) checkC18_iff : checkC18 a b o = none ↔ C18_Holds a b o
 -- TODO(proof) C18_eq / C18_hash / C18_order / C18_contains / C18_str, bundled as
 --   C18_model : ∀ h a b, C18_Holds a b (modelPairObs h a b)
